@@ -99,6 +99,31 @@ func (f *listFaults) onList(list client.ObjectList) error {
 	return nil
 }
 
+// onGet: a fault of kind "Get:<Type>" (e.g. "Get:PersistentVolumeClaim") fails the Nth Get of an object of that type
+func (f *listFaults) onGet(obj client.Object) error {
+	if f == nil {
+		return nil
+	}
+	f.mu.Lock()
+	defer f.mu.Unlock()
+	if !f.armed {
+		return nil
+	}
+	t := reflect.TypeOf(obj)
+	for t.Kind() == reflect.Pointer {
+		t = t.Elem()
+	}
+	kind := "Get:" + t.Name()
+	f.counts[kind]++
+	for _, lf := range f.faults {
+		if lf.Kind == kind && lf.Nth == f.counts[kind] {
+			f.Fired = append(f.Fired, fmt.Sprintf("%s#%d", kind, lf.Nth))
+			return apierrors.NewServiceUnavailable(fmt.Sprintf("verif: injected failure of %s #%d", kind, lf.Nth))
+		}
+	}
+	return nil
+}
+
 func (f *listFaults) arm(on bool) {
 	if f == nil {
 		return
@@ -168,6 +193,9 @@ func newClient(lf *listFaults, objs ...client.Object) client.Client {
 		WithInterceptorFuncs(interceptor.Funcs{Get: func(ctx context.Context, c client.WithWatch, key client.ObjectKey, obj client.Object, opts ...client.GetOption) error {
 			if _, ok := obj.(*corev1.PersistentVolume); ok {
 				key.Namespace = ""
+			}
+			if err := lf.onGet(obj); err != nil {
+				return err
 			}
 			return c.Get(ctx, key, obj, opts...)
 		}, List: func(ctx context.Context, c client.WithWatch, list client.ObjectList, opts ...client.ListOption) error {
